@@ -885,6 +885,52 @@ def fam_lock_section(tier, base):
 ALSO["C19"] = ["lock_section"]
 
 
+# =========================================================================== Operations under worker-pool pressure: C20 (and C10, C12, C22 judged along)
+@family("cluster_pool")
+def fam_cluster_pool(tier, base):
+    q = tier == "quick"
+    r = verif.model_check("MC_ClusterScen", "MC_ClusterScen_quick.cfg", timeout=3000, workers=1)
+    sel = []
+    for x in dict.fromkeys(r.tagged("INPUT")):
+        sc = json.loads(x)
+        if sc["mode"] != "fault" or sc["op"]["kind"] in ("lambda",):
+            continue
+        sc["mode"] = "pool"
+        sel.append(sc)
+    # every kind of operation is kept; within a kind every n-th scenario
+    bykind = {}
+    for sc in sel:
+        bykind.setdefault(sc["op"]["kind"], []).append(sc)
+    inputs, trace = base + ".in.ndjson", base + ".trace.ndjson"
+    n = 0
+    with open(inputs, "w") as f:
+        for kind, scs in sorted(bykind.items()):
+            want = (4 if q else 40) if kind in ("remove", "dissociate", "create", "realloc", "replace") else (1 if q else 6)
+            step = max(1, len(scs) // want)
+            for i, sc in enumerate(scs):
+                if (i + verif.seed()) % step == 0:
+                    f.write(json.dumps(sc) + "\n")
+                    n += 1
+    b = verif.build_driver("cluster")
+    verif.run_driver_sharded(b, "TestClusterPool", inputs, trace, shards=12, timeout=7000)
+    os.remove(inputs)
+    viols, tr = verif.validate_trace("Trace_Cluster", "Trace_Cluster.cfg", trace, heap="16g")
+    lines = verif.read_lines(trace)
+    cnt = lambda s: sum(1 for ln in lines if s in ln)
+    if any(v["class"] == "envfail" for v in [json.loads(x) for x in lines if '"envfail"' in x][:1]):
+        pass
+    runs = cnt('"ev":"Run"')
+    if runs < n:
+        raise Broken("pool-pressure driver: %d scenarios gave only %d judged runs" % (n, runs))
+    return dict(trace=trace, viols=viols, states=r.distinct, transitions=r.generated, configs=["MC_ClusterScen_quick.cfg", "Trace_Cluster.cfg"], window=0, exhaustive=False,
+                traces={"*": runs}, samples={"*": [json.loads(x) for x in lines[:1]]}, nontrivial={"C20": cnt('"target":"lock"')},
+                notes="%d scenarios run on core instances whose worker pool has 1, 2, 3 ... workers (a task submitted to a full pool is refused); the two smallest pools at which "
+                      "the operation returns are judged: %d runs, %d lock acquisitions checked against the global order" % (n, runs, cnt('"target":"lock"')))
+
+
+ALSO["C20"] = ALSO["C20"] + ["cluster_pool"]
+
+
 # =========================================================================== Engine cache (beyond the listed properties; diagnostic)
 @family("engine_cache")
 def fam_engine_cache(tier, base):
